@@ -25,8 +25,9 @@ def run(ctx):
                      "the property's clauses are evaluated directly with one-sided bounds; distinct = hash of script; non-trivial = contains a call / a NewJitterTicker")
     ctx.assumptions.append("time: the model's clock is the process's monotonic clock; a timer may fire arbitrarily later than its deadline; no upper bound on any latency is "
                            "asserted anywhere (liveness of SleepContext is covered by the progress theorem of the model only)")
-    ctx.assumptions.append("JitterTicker no-panic is proved for 2*jitter <= max_int64 only: for jitter >= 2^62 ns (146 years) int64(jitter*2) overflows and rand.Int63n "
-                           "panics (C20_ticker_no_panic_refuted; the harness observes that panic on the real code and the model predicts it); spacing is proved for d + jitter <= max_int64")
+    ctx.assumptions.append("JitterTicker: no-panic and spacing are proved for every documented (d, jitter) in the int64 range (C20_ticker_no_panic, "
+                           "C20_ticker_delay_documented: the delay lies in [d - jitter, max_int64]); the pre-fix computation is kept only for the refuted witnesses "
+                           "C20_ticker_orig_panics_refuted / C20_ticker_orig_spacing_refuted")
     ctx.assumptions.append("'no tick after Stop' is stated for the interval in which no NewJitterTicker/Reset critical section executes (a concurrent or later Reset legitimately "
                            "restarts the ticker); Stop on an already stopped ticker (nil timer) panics with the mutex held - outside the property, modelled, never exercised by generated scripts")
     vlib.handle_broken_proof(ctx)
